@@ -54,6 +54,19 @@ Definition P : option outcome := Some (OErr 8).
 Definition c (mode : Z) (pat : string) (lines : list string) (cs ic : option outcome) : inp * obs :=
   ((Z.to_N mode, unhex pat, lines_of (cat lines)), (cs, ic)).
 
+(* compact form for long sequences: a table of the distinct lines / distinct results and one
+   character per call ('0' + index into the table) *)
+Definition pick {A} (tbl : list A) (d : A) (s : string) : list A :=
+  map (fun a => nth (N.to_nat (N_of_ascii a) - 48) tbl d) (list_ascii_of_string s).
+Definition Nil : option (list Z) := None.
+Definition S_ (l : list Z) : option (list Z) := Some l.
+Definition KL (names : list (string * Z)) (rtbl : list (option (list Z))) (ret end_ : list string) : option outcome :=
+  Some (OOk (map (fun p => (unhex (fst p), snd p)) names) (pick rtbl None (cat ret)) (pick rtbl None (cat end_))).
+Definition cL (mode : Z) (pat : string) (ltbl : list string) (seq : list string) (cs ic : option outcome) : inp * obs :=
+  ((Z.to_N mode, unhex pat, pick (map unhex ltbl) [] (cat seq)), (cs, ic)).
+
+Example pick_ex : pick [S_ [1; 2]%Z; Nil] None "010" = [Some [1; 2]%Z; None; Some [1; 2]%Z].
+Proof. reflexivity. Qed.
 Example results_of_ex : results_of "0,17,0,5;-;;-3,4;" = [Some [0; 17; 0; 5]; None; Some []; Some [-3; 4]]%Z.
 Proof. reflexivity. Qed.
 Example lines_of_ex : lines_of "6162;;ff;" = [[97; 98]; []; [255]]%N /\ lines_of "" = [].
